@@ -67,6 +67,7 @@ Ltac cstep_cases H :=
   unfold ctstep in Hts; destruct (c_pc th) eqn:Epc;
   repeat match type of Hts with
          | context [match c_mutex ?g with _ => _ end] => let E := fresh "Emx" in destruct (c_mutex g) eqn:E
+         | context [if c_fail ?a then _ else _] => let E := fresh "Efl" in destruct (c_fail a) eqn:E
          | context [match plookup ?a ?b with _ => _ end] => let E := fresh "Elk" in destruct (plookup a b) eqn:E
          | context [if ino_locked_by_other ?a ?b ?c then _ else _] => let E := fresh "Eot" in destruct (ino_locked_by_other a b c) eqn:E
          end; cinv_some.
@@ -95,6 +96,11 @@ Proof.
   (* opened threads: the directory still maps their path to their inode *)
   all: try (intros t0 th0 H0 Ho; csplit_thr H0; simpl in *;
             first [ discriminate | eapply (ci_bound _ I); eauto ]; fail).
+  - (* C_Open fails: the thread is back at the start of its next cycle *)
+    intros t0 th0 H0 Hh; csplit_thr H0; unfold cnext_cycle in *; simpl in *;
+      [destruct (c_todo th); discriminate | eapply (ci_holds _ I); eauto].
+  - intros t0 th0 H0 Ho; csplit_thr H0; unfold cnext_cycle in *; simpl in *;
+      [destruct (c_todo th); discriminate | eapply (ci_bound _ I); eauto].
   - (* C_Open, existing inode: bound *)
     intros t0 th0 H0 Ho; csplit_thr H0; simpl in *; [exact Elk|eapply (ci_bound _ I); eauto].
   - (* C_Open, fresh inode *)
@@ -181,7 +187,7 @@ Qed.
    is granted LOCK_EX at once: B and C are in the cache section of the same key together. *)
 Definition unlink_witness_sched : list nat := [0;0;0;0; 1;1;1; 0;0;0; 1; 2;2;2;2].
 Definition unlink_witness : cstate :=
-  match crun unlink_witness_sched (cinit true [[5];[5];[5]]) with Some s => s | None => cinit true [] end.
+  match crun unlink_witness_sched (cinit true [[(5,false)];[(5,false)];[(5,false)]]) with Some s => s | None => cinit true [] end.
 
 Lemma cache_lock_unlink_refuted :
   creachable true unlink_witness /\ (count (in_cache_section 5) (thr unlink_witness) = 2) /\
@@ -189,18 +195,31 @@ Lemma cache_lock_unlink_refuted :
                    c_pc th1 = C_Body /\ c_pc th2 = C_Body /\ c_path th1 = c_path th2 /\ c_ino th1 <> c_ino th2).
 Proof.
   split.
-  - exists [[5];[5];[5]]. eapply (run_reach ctstep unlink_witness_sched). vm_compute. reflexivity.
+  - exists [[(5,false)];[(5,false)];[(5,false)]]. eapply (run_reach ctstep unlink_witness_sched). vm_compute. reflexivity.
   - split; [vm_compute; reflexivity|]. do 2 eexists. vm_compute. repeat split; try reflexivity. discriminate.
 Qed.
 
 (* the hypotheses of cache_lock_exclusive are satisfiable: same schedule without the unlink leaves B alone inside,
    C blocked in flock on the SAME inode *)
 Definition nounlink_state : cstate :=
-  match crun [0;0;0;0; 1;1;1; 0;0; 1; 2;2;2] (cinit false [[5];[5];[5]]) with Some s => s | None => cinit false [] end.
+  match crun [0;0;0;0; 1;1;1; 0;0; 1; 2;2;2] (cinit false [[(5,false)];[(5,false)];[(5,false)]]) with Some s => s | None => cinit false [] end.
 Lemma cache_lock_witness :
   creachable false nounlink_state /\ (count (in_cache_section 5) (thr nounlink_state) = 1) /\ (cenabled nounlink_state 2 = false).
 Proof.
   split.
-  - exists [[5];[5];[5]]. eapply (run_reach ctstep [0;0;0;0; 1;1;1; 0;0; 1; 2;2;2]). vm_compute. reflexivity.
+  - exists [[(5,false)];[(5,false)];[(5,false)]]. eapply (run_reach ctstep [0;0;0;0; 1;1;1; 0;0; 1; 2;2;2]). vm_compute. reflexivity.
   - vm_compute. auto.
+Qed.
+
+(* a FAILED open() of the lock file is an event of the model: the requester is refused and never enters; thread 0 is
+   inside, thread 1's open fails (it is done), thread 2 waits in flock on the same inode *)
+Definition open_fault_state : cstate :=
+  match crun [0;0;0;0; 1;1;1; 2;2;2] (cinit false [[(5,false)];[(5,true)];[(5,false)]]) with Some s => s | None => cinit false [] end.
+Lemma cache_lock_open_fault_witness :
+  creachable false open_fault_state /\ (count (in_cache_section 5) (thr open_fault_state) = 1) /\
+  (exists th1, cthr_at open_fault_state 1 th1 /\ c_pc th1 = C_Done) /\ (cenabled open_fault_state 2 = false).
+Proof.
+  split.
+  - exists [[(5,false)];[(5,true)];[(5,false)]]. eapply (run_reach ctstep [0;0;0;0; 1;1;1; 2;2;2]). vm_compute. reflexivity.
+  - split; [vm_compute; reflexivity|]. split; [eexists; vm_compute; split; reflexivity|vm_compute; reflexivity].
 Qed.
